@@ -425,11 +425,103 @@ def _else_of_early_return(fn):
     return fn
 
 
+def _inline_helpers(fn, module, cls=None):
+    """a copy of `fn` in which (a) `x = helper(args)` with a module-level helper that is a single `return <expr>`
+    becomes `x = <expr>` with the parameters substituted, (b) a statement `self.helper(args)` / `helper(args)` whose
+    helper is a plain method of the same class / module-level function is replaced by the helper's statements
+    (a trailing bare `return` dropped), (c) a module-level `NAME = <literal>` used in `fn` is replaced by the literal,
+    (d) `return (a, <expr>)` becomes `_result = <expr>; return (a, _result)`"""
+    import copy
+    fn = copy.deepcopy(fn)
+    funcs = {d.name: d for d in module.body if isinstance(d, ast.FunctionDef)}
+    methods = {d.name: d for d in (cls.body if cls is not None else []) if isinstance(d, ast.FunctionDef)}
+    consts = {st.targets[0].id: st.value for st in module.body
+              if isinstance(st, ast.Assign) and len(st.targets) == 1 and isinstance(st.targets[0], ast.Name)
+              and isinstance(st.value, ast.Constant) and st.targets[0].id.isupper() or
+              (isinstance(st, ast.Assign) and len(st.targets) == 1 and isinstance(st.targets[0], ast.Name)
+               and isinstance(st.value, ast.Constant) and st.targets[0].id.startswith('_')
+               and st.targets[0].id[1:].isupper())}
+
+    def simple(h, drop_self):
+        a = h.args
+        params = [p.arg for p in a.args][1 if drop_self else 0:]
+        if a.vararg or a.kwarg or a.kwonlyargs or a.posonlyargs or a.defaults:
+            return None
+        return params
+
+    def subst(node, bind):
+        class Sub(ast.NodeTransformer):
+            def visit_Name(self, n):   # pylint: disable=invalid-name
+                return copy.deepcopy(bind[n.id]) if n.id in bind else n
+        return ast.fix_missing_locations(Sub().visit(copy.deepcopy(node)))
+
+    def body_of(h):
+        return [x for x in h.body if not (isinstance(x, ast.Expr) and isinstance(x.value, ast.Constant))]
+
+    class Expr(ast.NodeTransformer):
+        def visit_Name(self, n):   # pylint: disable=invalid-name
+            if isinstance(n.ctx, ast.Load) and n.id in consts:
+                return copy.deepcopy(consts[n.id])
+            return n
+
+        def visit_Call(self, c):   # pylint: disable=invalid-name
+            c = self.generic_visit(c)
+            if isinstance(c.func, ast.Name) and c.func.id in funcs and not c.keywords:
+                h = funcs[c.func.id]
+                params = simple(h, False)
+                b = body_of(h)
+                if params is not None and len(params) == len(c.args) and len(b) == 1 and isinstance(b[0], ast.Return) \
+                        and all(isinstance(x, (ast.Name, ast.Constant)) for x in c.args) \
+                        and b[0].value is not None and h.name.startswith('_') and h.name not in ('_extract',):
+                    return subst(b[0].value, dict(zip(params, c.args)))
+            return c
+
+    def block(stmts):
+        out = []
+        for st in stmts:
+            c = st.value if isinstance(st, ast.Expr) and isinstance(st.value, ast.Call) else None
+            h = None
+            if c is not None and not c.keywords:
+                if isinstance(c.func, ast.Attribute) and getattr(c.func.value, 'id', '') == 'self' \
+                        and c.func.attr in methods and c.func.attr.startswith('_') and c.func.attr != '_send':
+                    h, params = methods[c.func.attr], simple(methods[c.func.attr], True)
+                elif isinstance(c.func, ast.Name) and c.func.id in funcs and c.func.id.startswith('_'):
+                    h, params = funcs[c.func.id], simple(funcs[c.func.id], False)
+            if h is not None and params is not None and len(params) == len(c.args) and h is not fn \
+                    and all(isinstance(x, (ast.Name, ast.Constant)) for x in c.args):
+                b = body_of(h)
+                if b and isinstance(b[-1], ast.Return) and b[-1].value is None:
+                    b = b[:-1]
+                if not any(isinstance(x, ast.Return) and x.value is not None for y in b for x in ast.walk(y)):
+                    out.extend(block([subst(x, dict(zip(params, c.args))) for x in b]))
+                    continue
+            for field in ('body', 'orelse', 'finalbody'):
+                if isinstance(getattr(st, field, None), list) and getattr(st, field) and isinstance(
+                        getattr(st, field)[0], ast.stmt):
+                    setattr(st, field, block(getattr(st, field)))
+            if isinstance(st, ast.Return) and isinstance(st.value, ast.Tuple) and len(st.value.elts) == 2 \
+                    and not isinstance(st.value.elts[1], ast.Name):
+                out.append(ast.Assign(targets=[ast.Name(id='_result', ctx=ast.Store())], value=st.value.elts[1]))
+                st.value.elts[1] = ast.Name(id='_result', ctx=ast.Load())
+            out.append(st)
+        return out
+    fn.body = [Expr().visit(x) for x in block(fn.body)]
+    return ast.fix_missing_locations(fn)
+
+
+def _try(reader, fn, module, cls=None):
+    """read `fn` as written; when that is outside the subset, read it with its private helpers inlined"""
+    try:
+        return reader(fn)
+    except Untranslatable:
+        return reader(_inline_helpers(fn, module, cls))
+
+
 def gen_blob(repo):
     util, comms, model = _tree(repo, UTIL), _tree(repo, COMMS), _tree(repo, MODEL)
-    enc, tools, sep = read_encode(find_def(util, 'encode'))
+    enc, tools, sep = _try(read_encode, find_def(util, 'encode'), util)
     mv, mneg = read_move(_else_of_early_return(find_def(util, 'move')))
-    srv = read_set(find_def(comms, 'Worker.do'), mv, mneg)
+    srv = _try(lambda f: read_set(f, mv, mneg), find_def(comms, 'Worker.do'), comms, find_def(comms, 'Worker'))
     read_set_prime(find_def(comms, 'Connector._set_prime'))
     f1 = read_flag(find_def(model, 'Interface._update'), 'Interface._update')
     f2 = read_flag(find_def(model, 'Interface._update_msv'), 'Interface._update_msv')
